@@ -9,9 +9,17 @@ LEVEL = "model_checking"
 def programs(rng, names):
     progs = {}
     for k, nme in enumerate(names):
-        kind = rng.choice(["chunk", "contig", "group"])
+        kind = rng.choice(["chunk", "contig", "group", "contig", "chunk", "vlen"])
         p = []
-        if kind == "group":
+        if kind == "vlen":       # variable-length strings: element data in global heap collections next to the other objects
+            n = rng.randint(1, 4)
+            p.append({"op": "mkds", "p": "/" + nme, "dt": "vls", "dims": [n]})
+            p.append({"op": "write", "p": "/" + nme, "data": rng.choice(["seq", "ext", "rnd"])})
+            if rng.random() < 0.5:
+                p.append({"op": "attr", "p": "/" + nme, "n": "a0", "v": "i32"})
+            if rng.random() < 0.5:
+                p.append({"op": "write", "p": "/" + nme, "data": rng.choice(["seq", "ext", "rnd"])})
+        elif kind == "group":
             p.append({"op": "mkgroup", "p": "/" + nme})
             for a in range(rng.randint(1, 5)):
                 p.append({"op": "attr", "p": "/" + nme, "n": "a%d" % a, "v": rng.choice(["i32", "s40", "s150", "ad3"])})
@@ -60,7 +68,8 @@ def random_interleavings(ctx, n):
 
 def run(ctx):
     thorough = ctx.tier == "thorough"
-    models = [("C04Model.tla", "C04_PXY.cfg"), ("C04Model.tla", "C04_PXG.cfg"), ("C04Model.tla", "C04_PXYG.cfg")]
+    models = [("C04Model.tla", "C04_PXY.cfg"), ("C04Model.tla", "C04_PXG.cfg"), ("C04Model.tla", "C04_PXYG.cfg"),
+              ("C04Model.tla", "C04_PVY.cfg"), ("C04Model.tla", "C04_PVX.cfg")]
     if thorough:
         models.append(("C04Model.tla", "C04_PXYGlong.cfg"))
     # design level: the Frame property of the behaviour specification
@@ -71,7 +80,8 @@ def run(ctx):
         nontrivial=lambda c: len({tuple(o.get("pc") or [o.get("p")])[0] for o in c["ops"]}) >= 2,
         rule="cases = ALL interleavings (TLC, Interleave.tla) of per-object programs over 2-3 live objects "
              "(chunked resizable dataset with attributes crossing into dense storage + resize + hard link; contiguous dataset "
-             "with growing attributes + new sibling; group with attributes + member), superblock 0/2/3, plus seeded random "
+             "with growing attributes + new sibling; group with attributes + member; variable-length string dataset whose elements "
+             "include one larger than a global heap collection), superblock 0/2/3, plus seeded random "
              "interleavings over 4-6 objects; every object is dumped after reopen and compared with the model; "
              "non-trivial = calls on at least two different objects; distinct by hash of the case")
 
